@@ -1,6 +1,203 @@
-//! C13 scenarios — filled in below.
+//! C13 scenarios: two and three openers of the same file (existing or not yet created), scheduled at
+//! every system call of the open / initialise / commit / close path.  Openers are threads: flock
+//! locks belong to the open file description, so independent DB::open calls in one process conflict
+//! exactly like processes do, and the library keeps no process-wide state.
+
+use std::sync::atomic::{AtomicI64, Ordering};
+use std::sync::{Arc, Mutex};
+
+use serde_json::json;
+
+use crate::real;
 use crate::report::Tier;
-use crate::sched::{ExecResult, RwPolicy};
-use crate::schedx::Judgement;
-pub fn serve_job(_tier: Tier, _ci: usize, _policy: RwPolicy, _max: u64, _path: &str) -> String { "{\"err\":\"not built\"}".into() }
-pub fn replay_one(_tier: Tier, _ci: usize, _policy: RwPolicy, _prefix: &[u8], _path: &str) -> (ExecResult, Vec<Judgement>) { (ExecResult { points: vec![], deadlock: None, diverged: Some("not built".into()), panics: vec![] }, vec![]) }
+use crate::runner::Cfg;
+use crate::sched::{run_execution, Body, Ctx, ExecResult, RwPolicy};
+use crate::schedx::{CaseInfo, Judgement};
+
+#[derive(Clone, Debug)]
+pub struct Case {
+    pub openers: usize,
+    pub file_exists: bool,
+    pub bound: usize,
+}
+
+pub fn cases(tier: Tier) -> Vec<Case> {
+    let q = tier == Tier::Quick;
+    vec![
+        Case { openers: 2, file_exists: true, bound: if q { 6 } else { 12 } },
+        Case { openers: 2, file_exists: false, bound: if q { 4 } else { 8 } },
+        Case { openers: 3, file_exists: true, bound: if q { 2 } else { 3 } },
+        Case { openers: 3, file_exists: false, bound: if q { 2 } else { 3 } },
+    ]
+}
+
+pub fn case_infos(tier: Tier) -> Vec<CaseInfo> {
+    cases(tier)
+        .iter()
+        .map(|c| CaseInfo {
+            label: format!("{}openers-{}-c{}", c.openers, if c.file_exists { "existing" } else { "absent" }, c.bound),
+            describe: json!({"openers": c.openers, "file": if c.file_exists { "exists (empty database, closed)" } else { "does not exist yet" }, "opener_body": "open(path); inside += 1; commit own marker; read all markers; yield; inside -= 1; close", "preemption_bound": c.bound}),
+        })
+        .collect()
+}
+
+#[derive(Default)]
+struct Obs {
+    max_inside: i64,
+    errors: Vec<(usize, String)>,
+    /// (opener, markers seen, openers that had closed before this opener's open returned)
+    views: Vec<(usize, Vec<usize>, Vec<usize>)>,
+    closed: Vec<usize>,
+    order: Vec<usize>,
+}
+
+fn markers(tx: &jammdb::Tx, n: usize) -> Result<Vec<usize>, String> {
+    match real::guarded(|| -> Result<Vec<usize>, String> {
+        let b = match tx.get_bucket("openers") {
+            Ok(b) => b,
+            Err(jammdb::Error::BucketMissing) => return Ok(vec![]),
+            Err(e) => return Err(format!("{:?}", e)),
+        };
+        let mut v = vec![];
+        for i in 0..n {
+            if b.get_kv(format!("opener{}", i)).is_some() {
+                v.push(i);
+            }
+        }
+        Ok(v)
+    }) {
+        Ok(r) => r,
+        Err(p) => Err(format!("panic while reading: {}", p)),
+    }
+}
+
+pub fn run_one(case: &Case, path: &str, prefix: &[u8], policy: RwPolicy) -> (ExecResult, Vec<Judgement>, String) {
+    let _ = std::fs::remove_file(path);
+    let cfg = Cfg { num_pages: 16, ..Cfg::default() };
+    if case.file_exists {
+        match real::guarded(|| cfg.open(path).map(|_| ())) {
+            Ok(Ok(())) => {}
+            other => return (ExecResult { points: vec![], deadlock: None, diverged: Some(format!("cannot create base: {:?}", other)), panics: vec![] }, vec![], String::new()),
+        }
+    }
+    let inside = Arc::new(AtomicI64::new(0));
+    let obs = Arc::new(Mutex::new(Obs::default()));
+    let n = case.openers;
+    let mut bodies: Vec<Body> = vec![];
+    for i in 0..n {
+        let inside = inside.clone();
+        let obs = obs.clone();
+        let cfg = cfg.clone();
+        let path = path.to_string();
+        bodies.push(Box::new(move |ctx: &Ctx| {
+            let db = match real::guarded(|| cfg.open(&path)) {
+                Ok(Ok(db)) => db,
+                Ok(Err(e)) => {
+                    obs.lock().unwrap().errors.push((i, format!("open returned {:?}", e)));
+                    return;
+                }
+                Err(p) => {
+                    obs.lock().unwrap().errors.push((i, format!("open panicked: {}", p)));
+                    return;
+                }
+            };
+            let closed_before = obs.lock().unwrap().closed.clone();
+            let now = inside.fetch_add(1, Ordering::SeqCst) + 1;
+            {
+                let mut o = obs.lock().unwrap();
+                o.max_inside = o.max_inside.max(now);
+                o.order.push(i);
+            }
+            let r = real::guarded(|| -> Result<Vec<usize>, String> {
+                let tx = db.tx(true).map_err(|e| format!("tx(true): {:?}", e))?;
+                let b = tx.get_or_create_bucket("openers").map_err(|e| format!("{:?}", e))?;
+                b.put(format!("opener{}", i), "here").map_err(|e| format!("{:?}", e))?;
+                drop(b);
+                tx.commit().map_err(|e| format!("commit: {:?}", e))?;
+                let tx = db.tx(false).map_err(|e| format!("tx(false): {:?}", e))?;
+                markers(&tx, n)
+            });
+            match r {
+                Ok(Ok(seen)) => obs.lock().unwrap().views.push((i, seen, closed_before)),
+                Ok(Err(e)) => obs.lock().unwrap().errors.push((i, e)),
+                Err(p) => obs.lock().unwrap().errors.push((i, format!("panicked while using the database: {}", p))),
+            }
+            ctx.yield_now("holding");
+            inside.fetch_sub(1, Ordering::SeqCst);
+            drop(db);
+            obs.lock().unwrap().closed.push(i);
+        }));
+    }
+    let res = run_execution(prefix, bodies, policy, true);
+    let mut js = vec![];
+    if let Some(d) = &res.deadlock {
+        js.push(Judgement { class: "deadlock".into(), detail: d.clone() });
+    }
+    for (t, p) in &res.panics {
+        js.push(Judgement { class: crate::runner::panic_class("opener_panic", p), detail: format!("opener {} panicked: {}", t, p) });
+    }
+    let o = obs.lock().unwrap();
+    let mut outcome = format!("order{:?};", o.order);
+    for (i, e) in &o.errors {
+        let class = if e.starts_with("open returned") {
+            "open_failed".to_string()
+        } else if e.starts_with("open panicked") {
+            crate::runner::panic_class("open_panicked", e)
+        } else {
+            "opener_error".to_string()
+        };
+        js.push(Judgement { class, detail: format!("opener {}: {} (the file {})", i, e, if case.file_exists { "existed" } else { "did not exist at the start" }) });
+        outcome.push_str(&format!("err{};", i));
+    }
+    if res.deadlock.is_none() && res.diverged.is_none() {
+        if o.max_inside > 1 {
+            js.push(Judgement { class: "two_openers_inside".into(), detail: format!("{} openers were inside the database at the same time (order of entry {:?})", o.max_inside, o.order) });
+        }
+        for (i, seen, closed_before) in &o.views {
+            if !seen.contains(i) {
+                js.push(Judgement { class: "own_marker_missing".into(), detail: format!("opener {} does not see its own committed marker", i) });
+            }
+            for c in closed_before {
+                if !seen.contains(c) {
+                    js.push(Judgement { class: "earlier_commit_invisible".into(), detail: format!("opener {} opened after opener {} had closed, but does not see its marker (sees {:?})", i, c, seen) });
+                }
+            }
+        }
+    }
+    let had_errors = !o.errors.is_empty();
+    drop(o);
+    if res.deadlock.is_none() && res.diverged.is_none() && js.is_empty() && !had_errors {
+        let cfg2 = cfg.clone();
+        let r = real::guarded(|| -> Result<(Vec<usize>, Result<(), String>), String> {
+            let db = cfg2.open(path).map_err(|e| format!("{:?}", e))?;
+            let tx = db.tx(false).map_err(|e| format!("{:?}", e))?;
+            let m = markers(&tx, n)?;
+            drop(tx);
+            Ok((m, db.check().map_err(|e| format!("{:?}", e))))
+        });
+        match r {
+            Ok(Ok((m, chk))) => {
+                if m.len() != n {
+                    js.push(Judgement { class: "marker_lost".into(), detail: format!("after all openers finished the file holds markers {:?} of {}", m, n) });
+                }
+                if let Err(e) = chk {
+                    js.push(Judgement { class: "dbcheck".into(), detail: e });
+                }
+            }
+            other => js.push(Judgement { class: "final_state".into(), detail: format!("cannot reopen after the run: {:?}", other.map(|x| x.map(|_| ()))) }),
+        }
+    }
+    (res, js, outcome)
+}
+
+pub fn serve_job(tier: Tier, ci: usize, policy: RwPolicy, max_sched: u64, path: &str, start: Vec<u8>, expand_only: bool) -> String {
+    let cs = cases(tier);
+    let case = &cs[ci];
+    crate::schedx::explore_case(case.bound, start, expand_only, max_sched, |prefix| run_one(case, path, prefix, policy))
+}
+
+pub fn replay_one(tier: Tier, ci: usize, policy: RwPolicy, prefix: &[u8], path: &str) -> (ExecResult, Vec<Judgement>) {
+    let cs = cases(tier);
+    let (r, j, _) = run_one(&cs[ci], path, prefix, policy);
+    (r, j)
+}
